@@ -438,7 +438,8 @@ def build_T15f(tree):
             return node
 
         def visit_For(self, node):
-            if _norm(node) != 'for f in src_frame_numbers: if f not in source_frame_numbers: source_frame_numbers.append(f)':
+            # order-preserving union: an insertion-ordered dict keyed by the frame numbers (was: a list with a membership test)
+            if _norm(node) != 'for f in src_frame_numbers: source_frame_numbers.setdefault(f, None)':
                 raise Unsupported('from_segmentation: the union of the source frame numbers changed')
             return _parse('union = True')[0]
     step = R().visit(ast.parse(ast.unparse(drv)).body[0])
@@ -461,8 +462,11 @@ def build_T15f(tree):
             and [_norm(a) for a in call.args[:2]] == ['source_image_uids[0]', 'source_image_uids[1]'] and isinstance(call.args[2], ast.IfExp)):
         raise Unsupported('from_segmentation: construction of the source image changed')
     ife = call.args[2]
-    if _norm(ife.body) != 'source_frame_numbers' or _norm(ife.orelse) != 'None':
+    if _norm(ife.body) != 'list(source_frame_numbers)' or _norm(ife.orelse) != 'None':
         raise Unsupported('from_segmentation: the source frame numbers handed to SourceImageForSegmentation changed')
+    acc = _one(body, lambda s: isinstance(s, ast.AnnAssign) and _norm(s.target) == 'source_frame_numbers', 'initialisation of source_frame_numbers')
+    if _norm(acc.value) != '{}':
+        raise Unsupported('from_segmentation: source_frame_numbers no longer starts as an empty (insertion-ordered) dict')
 
     class L(ast.NodeTransformer):
         def visit_Name(self, node):
@@ -566,16 +570,17 @@ def build_T15g(tree):
     class M(ast.NodeTransformer):
         def visit_Assign(self, node):
             t, v = _norm(node.targets[0]), _norm(node.value)
-            if (t, v) == ('source_info[ins_uid]', '[cls_uid, ref_frames]'):
+            if (t, v) == ('source_info[ins_uid]', '[cls_uid, ref_frames, set(ref_frames) if ref_frames is not None else None]'):
                 return _parse('return 0')[0]
-            if (t, v) == ('known_frames', 'source_info[ins_uid][1]'):
+            if (t, v) in (('known_frames', 'source_info[ins_uid][1]'), ('seen_frames', 'source_info[ins_uid][2]')):
                 return None
             if (t, v) == ('source_info[ins_uid][1]', 'None'):
                 return _parse('return 1')[0]
             raise Unsupported(f'ReferencedSegment.from_segmentation: unexpected assignment `{t} = {v}` in the merge')
 
         def visit_For(self, node):
-            if _norm(node) != 'for f in ref_frames: if f not in known_frames: known_frames.append(f)':
+            # order-preserving union: the list of the entry, with the set of the entry for the membership test
+            if _norm(node) != 'for f in ref_frames: if f not in seen_frames: seen_frames.add(f) known_frames.append(f)':
                 raise Unsupported('ReferencedSegment.from_segmentation: the union of the source frame numbers changed')
             return _parse('return 2')[0]
     merge = M().visit(ast.parse(ast.unparse(inner[4])).body[0])
@@ -585,7 +590,7 @@ def build_T15g(tree):
                                  doc='`ReferencedSegment.from_segmentation`: a source image meets the per-instance table: 0 = new entry, 1 = whole '
                                      'instance from now on, 2 = union of the frame numbers'))
     emit = _one(body, lambda s: isinstance(s, ast.For) and _norm(s.iter) == 'source_info.items()', 'loop over source_info')
-    if _norm(emit) != ('for ins_uid, (cls_uid, ref_frames) in source_info.items(): source_images.append(SourceImageForSegmentation('
+    if _norm(emit) != ('for ins_uid, (cls_uid, ref_frames, _) in source_info.items(): source_images.append(SourceImageForSegmentation('
                        'referenced_sop_class_uid=cls_uid, referenced_sop_instance_uid=ins_uid, referenced_frame_numbers=ref_frames))'):
         raise Unsupported('ReferencedSegment.from_segmentation: the source images are no longer the entries of source_info in order')
     # ---- fallback
